@@ -31,7 +31,8 @@ SLOTS = {'U1': 1000, 'U2': 1000, 'U3': 1000, 'V1': 65534}
 NAMES = [b'com.example.N1', b'com.example.N2', b'com.example.N3']
 RULES = [b"type='signal',member='R1'", b"type='signal',member='R2'", b"type='signal',member='R3'"]
 LIM = {'max_incomplete_connections': 2, 'max_completed_connections': 3, 'max_connections_per_user': 2,
-       'max_names_per_connection': 3, 'max_match_rules_per_connection': 2, 'max_message_size': 4096, 'auth_timeout': 30000}
+       'max_names_per_connection': 3, 'max_match_rules_per_connection': 2, 'max_message_size': 4096, 'auth_timeout': 30000,
+       'max_replies_per_connection': 2}
 LIMITS_EXCEEDED = b'org.freedesktop.DBus.Error.LimitsExceeded'
 
 
@@ -44,6 +45,7 @@ class Session(BusSession):
         self.reg = N.Registry()
         self.rules = {l: Counter() for l in SLOTS}
         self.small = params.get('small', False)
+        self.calls = []               # outstanding calls: [caller, callee, serial] in the order they were made
 
     def lim_names(self):
         # with the two names of the small alphabet the limit must be 2 (unique name + 1), otherwise no request could exceed it
@@ -87,6 +89,12 @@ class Session(BusSession):
                 for i in range(len(RULES)):
                     ops.append(['add', l, i])
                     ops.append(['rm', l, i])
+                # method calls that nobody answers yet (pending replies per CALLER are limited), and answers to the oldest one
+                for t in SLOTS:
+                    if t != l and self.st[t] == 'completed' and (l, t) in (('U1', 'U2'), ('U1', 'U3'), ('U1', 'V1'), ('U2', 'U1')):
+                        ops.append(['pcall', l, t])
+                if any(c[1] == l for c in self.calls):
+                    ops.append(['preply', l])
                 ops.append(['big', l, -8])
                 ops.append(['big', l, 0])
                 ops.append(['big', l, 8])
@@ -207,6 +215,7 @@ class Session(BusSession):
             self.reg.drop_connection(l)
             self.rules[l] = Counter()
             self.uname[l] = None
+            self.calls = [x for x in self.calls if x[0] != l and x[1] != l]      # its own calls vanish; calls TO it are answered NoReply
             if was in ('incomplete',):
                 self.accept_waiting(out, desc)
             self.bus.pump()
@@ -237,6 +246,38 @@ class Session(BusSession):
                 self.bus.pump()
             self.read_handshake(out, desc)
             self.check_handshakes(out, desc)
+        elif kind == 'pcall':
+            l, t = op[1], op[2]
+            before = self.impl_key()
+            c = self.slots[l]
+            ser = self.bus.next_serial(c)
+            self.send(l, R.method_call(ser, self.uname[t], '/c', 'c.i', 'Ask', [R.U(ser)]))
+            mine = sum(1 for x in self.calls if x[0] == l)
+            got_call = [o for o in self.inbox.get(t, []) if o.kind == R.MT_CALL and o.serial == ser and o.sender == self.uname[l]]
+            errs = [o for o in self.inbox.get(l, []) if o.kind == R.MT_ERROR and o.rserial == ser]
+            if mine >= LIM['max_replies_per_connection']:
+                self.hit('call-over-limit')
+                if got_call or len(errs) != 1 or errs[0].errname != LIMITS_EXCEEDED:
+                    out.append(Violation('limit-exceeded', 'max_replies_per_connection', '%s: %s already has %d unanswered calls; the call was %s, errors %r' % (desc, l, mine, 'delivered' if got_call else 'not delivered', errs), None))
+                elif self.impl_key() != before:
+                    out.append(Violation('refusal-changed-state', 'max_replies_per_connection', '%s: refused call changed the state' % desc, None))
+            else:
+                self.hit('call-ok')
+                if len(got_call) != 1 or errs:
+                    out.append(Violation('refused-below-limit', 'call', '%s: %s has %d unanswered calls (limit %d) but the call was not delivered: errors %r' % (desc, l, mine, LIM['max_replies_per_connection'], errs), None))
+                else:
+                    self.calls.append([l, t, ser])
+        elif kind == 'preply':
+            t = op[1]
+            idx = next(i for i, x in enumerate(self.calls) if x[1] == t)
+            l, _, ser = self.calls.pop(idx)
+            c = self.slots[t]
+            s2 = self.bus.next_serial(c)
+            self.send(t, R.method_return(s2, ser, self.uname[l], [R.U(ser)]))
+            got = [o for o in self.inbox.get(l, []) if o.kind == R.MT_RETURN and o.rserial == ser]
+            self.hit('reply-frees-slot')
+            if len(got) != 1:
+                out.append(Violation('refused-below-limit', 'reply', '%s: the reply to an outstanding call was not delivered' % desc, None))
         elif kind in ('req', 'rel'):
             l, n = op[1], NAMES[op[2]]
             before = self.impl_key()
@@ -334,6 +375,15 @@ class Session(BusSession):
             out.append(Violation('limit-exceeded', 'connections-counter', '%s: n_completed=%d n_incomplete=%d' % (desc, nc, ni), None))
         if nc != self.n_completed() or ni != self.n_incomplete():
             out.append(Violation('model-differs', 'connections', '%s: implementation completed=%d incomplete=%d, model %d/%d (%r)' % (desc, nc, ni, self.n_completed(), self.n_incomplete(), self.st), None))
+        # calls of / to connections that are gone (closed by the client or dropped by the bus) are no longer outstanding
+        self.calls = [x for x in self.calls if self.st[x[0]] == 'completed' and self.st[x[1]] == 'completed']
+        per = Counter(mm.group(1)[1:] for mm in re.finditer(r'\|reply get=(\S+) ', '|' + d))
+        mper = Counter(x[0] for x in self.calls)
+        for lab in set(per) | set(mper):
+            if per[lab] > LIM['max_replies_per_connection']:
+                out.append(Violation('limit-exceeded', 'pending-replies-counter', '%s: %s has %d pending replies recorded' % (desc, lab, per[lab]), None))
+            if per[lab] != mper[lab]:
+                out.append(Violation('model-differs', 'pending-replies', '%s: the bus records %d pending replies for %s, the model %d' % (desc, per[lab], lab, mper[lab]), None))
         uids = Counter()
         for mm in re.finditer(r'conn (\S+) uid=(\d+) n_services=(\d+) len_services=(\d+) n_rules=(\d+) len_rules=(\d+)', d):
             lab, uid, ns, ls, nr, lr = mm.group(1), int(mm.group(2)), int(mm.group(3)), int(mm.group(4)), int(mm.group(5)), int(mm.group(6))
